@@ -421,6 +421,22 @@ Theorem C09_unsaved_index_refuted :
 Proof. exact unsaved_index_lost. Qed.
 Print Assumptions C09_unsaved_index_refuted.
 
+(* ---- tables regenerated from the source ---- *)
+
+(* The case lists of the media-type switches of manifestutil.Subject, registry.Referrers and
+   content.Successors and of descriptor.IsManifest (Generated/GC09.v) are what the model
+   assumes: Subject and Referrers accept the same media types (the model has one subject
+   function for both), exactly the manifest media types have successors, every media type
+   with a subject is a manifest; kinds 0..5 = blob, image, docker manifest, index, docker
+   manifest list, artifact manifest.  The driver masks the subject of a node by
+   [kind_has_subject], so the model follows the switch. *)
+Theorem C09_media_type_tables :
+  subject_tables_agree = true /\
+  map kind_has_subject [0; 1; 2; 3; 4; 5] = [false; true; false; true; false; true] /\
+  map is_manifest_kind [0; 1; 2; 3; 4; 5] = [false; true; true; true; true; true].
+Proof. exact media_type_tables_final. Qed.
+Print Assumptions C09_media_type_tables.
+
 (* ---- the graph abstraction ---- *)
 
 (* The C09 model represents graph.Memory by its node set and derives predecessors and
